@@ -1336,6 +1336,16 @@ def canon_call(body, c, args, site):
         return a0
     if path in ("std::string::String::as_str", "std::vec::Vec::<T, A>::as_slice", "std::string::String::as_bytes"):
         return a0 if path != "std::string::String::as_bytes" else ("call", path, (a0,), site[0])
+    # the length of an array viewed as a slice is its type's length: `a.len()` for `a: [char; 8]`
+    if name == "len" and len(args) == 1 and path.endswith("[T]>::len"):
+        x = strip_load(a0) if a0 is not None else None
+        for _ in range(3):
+            if x is not None and x[0] == "cast" and x[1] == "Unsize":
+                x = strip_load(x[2])
+        if x is not None and x[0] == "addr" and isinstance(x[1], int) and x[1] < len(body.locals):
+            m = re.match(r"^\[.*; (\d+)\]$", str(body.locals[x[1]].get("ty", "")).strip())
+            if m:
+                return ("const", int(m.group(1)))
     # element access
     if krate == "emap" and name in ("get", "get_mut"):
         return ("opt", ("elem", a0, deref_addr(body, args[1])))
